@@ -118,6 +118,12 @@ func mustEncode(m gnet.Message) []byte {
 	return b
 }
 
+// handlerCfg: the daemon configuration a request handler sees - the outgoing limit is the swept value, every other limit is
+// different from it (a handler that reads the wrong field builds a reply for another limit)
+func handlerCfg(max uint64) daemon.DaemonConfig {
+	return daemon.DaemonConfig{MaxOutgoingMessageLength: max, MaxIncomingMessageLength: 4*max + 4096, MaxGetBlocksResponseCount: 1000, MaxTxnAnnounceNum: 1000}
+}
+
 func c23Lists() []c23List {
 	var out []c23List
 	for _, n := range []int{0, 1, 2, 3, 127, 128, 129} {
@@ -138,6 +144,22 @@ func c23Lists() []c23List {
 			Full:  mustEncode(&daemon.GiveBlocksMessage{Blocks: elig}),
 			Make:  func(max uint64) gnet.Message { return daemon.NewGiveBlocksMessage(items, max) },
 			Count: func(m gnet.Message) int { return len(m.(*daemon.GiveBlocksMessage).Blocks) }})
+		if n > 0 {
+			// the same list as the reply the GetBlocksMessage handler builds (limits taken from the daemon configuration: the
+			// outgoing limit is the swept value, the incoming one is larger)
+			out = append(out, c23List{Kind: "GIVB", Name: fmt.Sprintf("%d blocks, reply built by the GETB handler", n), N: n, Sizes: sizes, Cap: 128, Extra: extra,
+				Full: mustEncode(&daemon.GiveBlocksMessage{Blocks: elig}),
+				Make: func(max uint64) gnet.Message {
+					r := &daemon.VerifReplier{Blocks: items}
+					r.Cfg = handlerCfg(max)
+					m := daemon.VerifHandlerReply(r, "GETB")
+					if m == nil {
+						return &daemon.GiveBlocksMessage{}
+					}
+					return m
+				},
+				Count: func(m gnet.Message) int { return len(m.(*daemon.GiveBlocksMessage).Blocks) }})
+		}
 	}
 	for _, n := range []int{0, 1, 2, 3, 255, 256, 257} {
 		n := n
@@ -157,6 +179,20 @@ func c23Lists() []c23List {
 			Full:  mustEncode(&daemon.GiveTxnsMessage{Transactions: elig}),
 			Make:  func(max uint64) gnet.Message { return daemon.NewGiveTxnsMessage(items, max) },
 			Count: func(m gnet.Message) int { return len(m.(*daemon.GiveTxnsMessage).Transactions) }})
+		if n > 0 {
+			out = append(out, c23List{Kind: "GIVT", Name: fmt.Sprintf("%d txns, reply built by the GETT handler", n), N: n, Sizes: sizes, Cap: 256, Extra: extra,
+				Full: mustEncode(&daemon.GiveTxnsMessage{Transactions: elig}),
+				Make: func(max uint64) gnet.Message {
+					r := &daemon.VerifReplier{Known: items}
+					r.Cfg = handlerCfg(max)
+					m := daemon.VerifHandlerReply(r, "GETT")
+					if m == nil {
+						return &daemon.GiveTxnsMessage{}
+					}
+					return m
+				},
+				Count: func(m gnet.Message) int { return len(m.(*daemon.GiveTxnsMessage).Transactions) }})
+		}
 	}
 	for _, n := range []int{0, 1, 2, 3, 4, 255, 256, 257} {
 		n := n
@@ -179,6 +215,20 @@ func c23Lists() []c23List {
 			Full:  mustEncode(&daemon.GetTxnsMessage{Transactions: elig}),
 			Make:  func(max uint64) gnet.Message { return daemon.NewGetTxnsMessage(items, max) },
 			Count: func(m gnet.Message) int { return len(m.(*daemon.GetTxnsMessage).Transactions) }})
+		if n > 0 {
+			out = append(out, c23List{Kind: "GETT", Name: fmt.Sprintf("%d hashes, request built by the ANNT handler", n), N: n, Sizes: sizes, Cap: 256, Extra: extra,
+				Full: mustEncode(&daemon.GetTxnsMessage{Transactions: elig}),
+				Make: func(max uint64) gnet.Message {
+					r := &daemon.VerifReplier{Unknown: items}
+					r.Cfg = handlerCfg(max)
+					m := daemon.VerifHandlerReply(r, "ANNT")
+					if m == nil {
+						return &daemon.GetTxnsMessage{}
+					}
+					return m
+				},
+				Count: func(m gnet.Message) int { return len(m.(*daemon.GetTxnsMessage).Transactions) }})
+		}
 	}
 	bad := []string{"not-an-address", "1.2.3.4", "[::1]:6000", "1.2.3.4:99999", "", ":6000", "2001:db8::1:6000"}
 	for _, variant := range []string{"all-valid", "every-3rd-unparsable", "first-unparsable"} {
